@@ -162,3 +162,5 @@ def run(res, facts, tier):
     _run_c10_prev_nomatch(res, facts, tier)
     from . import c10_builtin
     c10_builtin.run_nomatch_rule(res, facts, tier)
+    from . import c10_attrorder
+    c10_attrorder.run_rule(res, facts, tier)
